@@ -151,6 +151,10 @@ def rec_pair(seed):
         d2, m2 = data.T, None if mask is None else mask.T
     elif rel == 'rescale':
         d2 = data * (rng.choice([0.125, 3.0, 8.0, 1000.0, 2.0 ** -50, 1e-17, 1e12]) if name in ('com', 'quadratic') else rng.choice([0.125, 3.0, 8.0, 1000.0]))
+        if name in ('1dg', '2dg') and rng.random() < 0.3:
+            # physical flux units (a separate relation name: the Gaussian fits are known not to move at all there, see known_findings.json)
+            rel = 'rescale_to_small_units'
+            d2 = data * rng.choice([2.0 ** -40, 2.0 ** -60])
     else:
         if rng.random() < 0.5:
             # an unmasked non-finite pixel elsewhere in the cutout (excluded automatically) next to the user mask
@@ -159,10 +163,10 @@ def rec_pair(seed):
             data = data.copy(); data[r_, c_] = rng.choice([np.nan, np.inf])
         d2 = data.copy(); d2[mask] = rng.choice([-50.0, 1e5, 0.0])
     e1 = e2 = None
-    if name in ('1dg', '2dg') and rel in ('maskedvalues', 'rescale') and rng.random() < 0.6:
+    if name in ('1dg', '2dg') and rel in ('maskedvalues', 'rescale', 'rescale_to_small_units') and rng.random() < 0.6:
         # the Gaussian centroids take an error array: the error values under the mask are as irrelevant as the data values
         e1 = np.sqrt(data + 1.0)
-        e2 = e1 * (d2.flat[0] / data.flat[0] if rel == 'rescale' else 1.0)
+        e2 = e1 * (d2.flat[0] / data.flat[0] if rel.startswith('rescale') else 1.0)
         if rel == 'maskedvalues':
             e2 = e1.copy(); e2[mask] = rng.choice([1e6, 1e-6])
     f = f2 = funcs()[name]
